@@ -77,6 +77,7 @@ OPT_CONFIGS = [
     dict(name="one_adjustable", meas=("max", "vac", [2001, 2004], None), adj=1, tsc=False),
     dict(name="minmoney_atleast", meas=("min", "P1", [2001, 2004], None), adj=2, tsc=False, hard=("atleast", "vac", [2003], 1.0)),
     dict(name="max_atmost", meas=("max", "vac", [2001, 2004], None), adj=2, tsc=True, hard=("atmost", "sus", [2003], 1e6)),
+    dict(name="two_measurables_same_flow", meas=("min", "sus:dead", [2001, 2004], None), extra_meas=[("min", "sus:dead", [2002, 2003], None), ("min", "sus:dead", [2003], ["pa1"])], adj=2, tsc=True),
     dict(name="max_two_population_types", meas=("max", "vac", [2001, 2004], None), adj=2, tsc=True, world="types"),
     dict(name="minmoney_increaseby", meas=("min", "P1", [2001, 2004], None), adj=2, tsc=False, hard=("increaseby", "vac", [2003], 0.0)),  # "must not fall below its value under the original instructions"
 ]
@@ -86,6 +87,8 @@ def build_opt(cfg, maxiters):
     kind, name, t, pops = cfg["meas"]
     M = at.MaximizeMeasurable if kind == "max" else at.MinimizeMeasurable
     meas = [M(name, t, pop_names=pops)]
+    for k2, n2, t2, p2 in cfg.get("extra_meas", []):
+        meas.append((at.MaximizeMeasurable if k2 == "max" else at.MinimizeMeasurable)(n2, t2, pop_names=p2))
     if cfg.get("hard"):
         hk, hn, ht, thr = cfg["hard"]
         if hk == "increaseby":
@@ -100,8 +103,12 @@ def build_opt(cfg, maxiters):
 
 
 def harness_objective(cfg, r):
-    """the documented objective: sum of the requested output over the requested years and populations (sign by direction)"""
-    kind, name, t, pops = cfg["meas"]
+    """the documented objective: sum over the measurables of the requested output over the requested years and populations (sign by direction)"""
+    return sum(_one_objective(m_, r) for m_ in [cfg["meas"]] + list(cfg.get("extra_meas", [])))
+
+
+def _one_objective(meas, r):
+    kind, name, t, pops = meas
     m = r.model
     tt = m.t
     filt = (tt == t[0]) if len(t) == 1 else ((tt >= t[0]) & (tt < t[1]))
